@@ -1035,3 +1035,13 @@ PROPS["C05"] = {'claimed': True,
 
 # C05 also covers the applications: an implementation panic / hang in these domains that the model does not predict is a C05 failure
 PROPS["C05"]["panic_domains"] = ["dp", "scan", "diag", "phyrx", "codec"]
+
+# Oracles of sibling properties (same domain run) whose failure is also a failure of this property:
+#  C13 "one GAP poll per station and visit" is monitored as C12's two_gap_polls_per_visit (theorem C13_one_gap_poll_per_visit);
+#  C04 "replies from the wrong source never modify an image" rests on the FDL admission filter monitored as C15's reply_invalid
+#      (theorem C04_end_to_end uses the same lemma as C15_delivered_reply_shape) - needs the fdl domain;
+#  C06 recovery fails when a poll of a station panics (C05's panic rule in the fdl domain).
+PROPS["C13"]["also"] = [("C12", "two_gap_polls_per_visit")]
+PROPS["C04"]["domains"] = list(PROPS["C04"]["domains"]) + ["fdl"]
+PROPS["C04"]["also"] = [("C15", "reply_invalid")]
+PROPS["C06"]["also"] = [("C05", "panic")]
